@@ -319,7 +319,7 @@ def _jobs(fn: str, tier: str, cover: list) -> list[dict]:
             for mode in ('C', 'T'):
                 if tier == 'quick' and mode == 'T' and script not in ('Rc', 'Rcc', 'ccc', 'cc', 'bc', 'crrc'):
                     continue
-                tag = '' if antes == 1 else '/antes' + '-'.join(map(str, antes)) + '/stacks' + '-'.join(map(str, stacks))
+                tag = '/stacks' + '-'.join(map(str, stacks)) + ('' if antes == 1 else '/antes' + '-'.join(map(str, antes)))
                 out.append(dict(name=f'{code}/n{n}/{script}/{mode}{tag}', fn=fn, traced=False,
                                 params=dict(code=code, n=n, script=script, stacks=stacks, mode=mode,
                                             boards=boards, antes=antes),
